@@ -4,6 +4,7 @@ import (
 	"fmt"
 	"go/ast"
 	"go/token"
+	"go/types"
 	"sort"
 	"strings"
 
@@ -273,6 +274,7 @@ func c03R2(c *Ctx, r *Report) {
 		}
 		var problems []string
 		leading, double := false, false
+		dotFlag, escBlock := dotFlagPhi(fn)
 		idx := len(fn.Signature.Results().At(fn.Signature.Results().Len() - 1).Name()) * 0
 		_ = idx
 		last := fn.Signature.Results().Len() - 1
@@ -303,7 +305,7 @@ func c03R2(c *Ctx, r *Report) {
 					}
 				}
 				// wasDot
-				if phi, ok := f.Atom.(*ssa.Phi); ok && f.Holds && phi.Comment == "wasDot" {
+				if phi, ok := f.Atom.(*ssa.Phi); ok && f.Holds && dotFlag[phi] {
 					double = true
 				}
 			}
@@ -313,6 +315,27 @@ func c03R2(c *Ctx, r *Report) {
 		}
 		if !double {
 			problems = append(problems, "two adjacent dots (an empty label) are not rejected")
+		}
+		// an escape sequence is label content: it clears the "previous character was a dot" flag on every
+		// way through the backslash case (both escape forms), otherwise a label made of escapes only
+		// (a.\@.b.) is taken for an empty label by one sibling and accepted by the other
+		if len(dotFlag) > 0 && escBlock != nil {
+			for flag := range dotFlag {
+				for i, e := range flag.Edges {
+					pred := flag.Block().Preds[i]
+					if !(pred == escBlock || escBlock.Dominates(pred)) {
+						continue
+					}
+					if ep, isPhi := e.(*ssa.Phi); isPhi && dotFlag[ep] && ep != flag && escBlock.Dominates(ep.Block()) {
+						continue // a merge inside the escape case; its own edges are checked
+					}
+					if b, ok := constBool(e); !ok || b {
+						problems = append(problems, fmt.Sprintf("%s: a way through the escape case leaves the previous-character-was-a-dot flag as it was: a label consisting of escapes only is reported as empty", c.pos(firstPos(pred))))
+					}
+				}
+			}
+		} else {
+			problems = append(problems, "no previous-character-was-a-dot flag / escape case recognised")
 		}
 		r.check(len(problems) == 0, "C03.R2.sibling-rejects", name, c.pos(fn.Pos()), "leading dot, adjacent dots", "%s", strings.Join(problems, "; "))
 	}
@@ -674,4 +697,77 @@ func firstPos(b *ssa.BasicBlock) token.Pos {
 		}
 	}
 	return token.NoPos
+}
+
+// dotFlagPhi finds the loop-carried boolean that is set to true in the '.' case of the character switch
+// (wasDot) and the block of the backslash case.
+func dotFlagPhi(fn *ssa.Function) (map[*ssa.Phi]bool, *ssa.BasicBlock) {
+	var dotBlock, escBlock *ssa.BasicBlock
+	allInstrs(fn, func(in ssa.Instruction) {
+		ifi, ok := in.(*ssa.If)
+		if !ok {
+			return
+		}
+		cmp, ok := ifi.Cond.(*ssa.BinOp)
+		if !ok || cmp.Op != token.EQL {
+			return
+		}
+		k, isK := constIntOf(cmp.Y)
+		if !isK {
+			return
+		}
+		if _, isCall := cmp.X.(*ssa.Call); isCall {
+			return
+		}
+		switch k {
+		case '.':
+			if dotBlock == nil {
+				dotBlock = ifi.Block().Succs[0]
+			}
+		case '\\':
+			if escBlock == nil {
+				escBlock = ifi.Block().Succs[0]
+			}
+		}
+	})
+	family := map[*ssa.Phi]bool{}
+	if dotBlock == nil {
+		return family, escBlock
+	}
+	isBool := func(v ssa.Value) bool {
+		b, ok := v.Type().Underlying().(*types.Basic)
+		return ok && b.Kind() == types.Bool
+	}
+	allInstrs(fn, func(in ssa.Instruction) {
+		phi, ok := in.(*ssa.Phi)
+		if !ok || !isBool(phi) {
+			return
+		}
+		for i, e := range phi.Edges {
+			pred := phi.Block().Preds[i]
+			if bv, isB := constBool(e); isB && bv && (pred == dotBlock || dotBlock.Dominates(pred)) {
+				family[phi] = true
+			}
+		}
+	})
+	for changed := true; changed; {
+		changed = false
+		allInstrs(fn, func(in ssa.Instruction) {
+			phi, ok := in.(*ssa.Phi)
+			if !ok || !isBool(phi) {
+				return
+			}
+			for _, e := range phi.Edges {
+				if ep, isPhi := e.(*ssa.Phi); isPhi {
+					if family[ep] && !family[phi] {
+						family[phi], changed = true, true
+					}
+					if family[phi] && !family[ep] {
+						family[ep], changed = true, true
+					}
+				}
+			}
+		})
+	}
+	return family, escBlock
 }
